@@ -293,9 +293,83 @@ def rule_adjust(chk, prog, tier):
     r.exhaustive = True
 
 
+# ------------------------------------------------------------------ C08.e variable argument lists
+
+def rule_valist(chk, prog, tier):
+    r = chk.rule('C08.e', 'va_start / va_arg hand QBE the ADDRESS of the va_list object (the decayed pointer where va_list is an array type, &ap otherwise), va_copy copies the va_list object itself, va_end evaluates its operand; va_arg yields the named type and the class of that type, and only scalar types are lowered',
+                 floor=24, oracle='QBE IL vastart/vaarg take a pointer to the va_list storage; psABI / AAPCS64 / RISC-V va_list definitions (C08 descriptors are decided in C05.f)')
+    bf = prog.require_func('builtinfunc', 'expr.c')
+    fe = prog.require_func('funcexpr', 'qbe.c')
+    names = cmodel.instnames(prog)
+    for target in cmodel.TARGETS:
+        for kind in ('BUILTINVASTART', 'BUILTINVAARG', 'BUILTINVACOPY', 'BUILTINVAEND'):
+            for argty in (('int', 'long', 'double', 'ptr', 'struct') if kind == 'BUILTINVAARG' else (None,)):
+                def runner(it):
+                    w = World(prog, it=it, target=target)
+                    adj = it.load(it.gobj('typeadjvalist'), ())
+                    tv = it.load(it.load(it.gobj('targ'), ()).obj, it.load(it.gobj('targ'), ()).path + ('typevalist',))
+                    isarray = adj.obj is not tv.obj
+                    ap = w.temp(adj, 'ap'); ap.obj.f[('lvalue',)] = 1; ap.obj.ilabel = 'ap'
+                    ap2 = w.temp(adj, 'aq'); ap2.obj.f[('lvalue',)] = 1; ap2.obj.ilabel = 'aq'
+                    T = {'int': w.t('int'), 'long': w.t('long'), 'double': w.t('double'), 'ptr': w.mkptr(w.t('char')), 'struct': w.mkstruct(size=8, align=4)}
+                    q = {'n': 0}
+                    def assignexpr(i2, a, e):
+                        q['n'] += 1; return ap if q['n'] == 1 else ap2
+                    def typename(i2, a, e):
+                        if a[2] is not None: i2.assign(a[2].obj, a[2].path, None)
+                        return T[argty]
+                    it.models.update({'assignexpr': assignexpr, 'typename': typename, 'expect': lambda i2, a, e: None, 'consume': lambda i2, a, e: 0, 'delexpr': lambda i2, a, e: None,
+                                      'free': lambda i2, a, e: None, 'xmalloc': lambda i2, a, e: Ptr(Obj('heap@%s' % e.get('line'), 'heap'), ()),
+                                      'error': lambda i2, a, e: (_ for _ in ()).throw(Terminal('error', cmodel.fmt_of(i2, a, 1))),
+                                      'fatal': lambda i2, a, e: (_ for _ in ()).throw(Terminal('fatal', cmodel.fmt_of(i2, a, 0)))})
+                    e = it.call(bf, [Ptr(Obj('scope', 'heap'), ()), ev(prog, kind)])
+                    K = lambda x: {ev(prog, k): k for k in ('EXPRBUILTIN', 'EXPRUNARY', 'EXPRASSIGN', 'EXPRCAST', 'EXPRTEMP')}.get(it.load(x.obj, ('kind',)), '?')
+                    def shape(x):
+                        if x.obj is ap.obj: return 'ap'
+                        if x.obj is ap2.obj: return 'aq'
+                        if K(x) == 'EXPRUNARY': return ('&' if it.load(x.obj, ('op',)) == ev(prog, 'TBAND') else '*') + shape(it.load(x.obj, ('base',)))
+                        if K(x) == 'EXPRCAST': return 'cast(' + shape(it.load(x.obj, ('base',))) + ')'
+                        return K(x)
+                    if kind in ('BUILTINVASTART', 'BUILTINVAARG'):
+                        res = shape(it.load(e.obj, ('base',)))
+                        tyok = kind == 'BUILTINVASTART' or it.load(e.obj, ('type',)).obj is T[argty].obj
+                        # lowering
+                        def funcexpr(i2, a, e_):
+                            if a[1].obj is e.obj: return i2.call(fe, a)
+                            i2.event('eval', shape(a[1])); return cmodel.val('v')
+                        it.models.update(cmodel.backend_models(prog)); it.models['funcexpr'] = funcexpr; it.models['calcvla'] = lambda i2, a, e_: None
+                        it.models['error'] = lambda i2, a, e_: (_ for _ in ()).throw(Terminal('error', cmodel.fmt_of(i2, a, 1)))
+                        try:
+                            it.call(fe, [Ptr(Obj('func', 'heap'), ()), e]); low = [(x[1], x[2]) for x in it.events if x[0] == 'inst'] + [x[1] for x in it.events if x[0] == 'eval']
+                        except Terminal as t_:
+                            low = 'error'
+                        return isarray, res, tyok, low
+                    if kind == 'BUILTINVACOPY':
+                        return isarray, (K(e), shape(it.load(e.obj, ('u', 'assign', 'l'))), shape(it.load(e.obj, ('u', 'assign', 'r')))), True, None
+                    return isarray, shape(e), it.load(e.obj, ('type',)).obj is w.t('void').obj, None
+                runs = explore(prog, runner, {}, max_runs=4, on_unsupported='keep')
+                if len(runs) != 1 or runs[0].outcome != 'return':
+                    raise AnalysisBroken('builtinfunc %s %s: %s %s' % (kind, target, runs[0].outcome if runs else '?', runs[0].detail if runs else ''))
+                isarray, shp, tyok, low = runs[0].value
+                key = 'valist:%s%s,%s' % (kind[7:].lower(), '' if argty is None else '(%s)' % argty, target)
+                addr = 'ap' if isarray else '&ap'
+                if kind == 'BUILTINVASTART':
+                    ok = shp == addr and low == [('IVASTART', 0), addr]
+                elif kind == 'BUILTINVAARG':
+                    cls = {'int': 'w', 'long': 'l', 'double': 'd', 'ptr': 'l'}.get(argty)
+                    ok = shp == addr and tyok and (low == 'error' if argty == 'struct' else low == [('IVAARG', cls), addr])
+                elif kind == 'BUILTINVACOPY':
+                    ok = shp == (('EXPRASSIGN', '*ap', '*aq') if isarray else ('EXPRASSIGN', 'ap', 'aq'))
+                else:
+                    ok = shp == 'cast(ap)' and tyok
+                r.instance(bool(ok), key, 'expr.c:%s' % bf.get('line'), 'va_list is %s on this target; built %s (type ok: %s), lowered to %s' % ('an array type' if isarray else 'not an array type', shp, tyok, low))
+    r.exhaustive = True
+
+
 def run(chk, tier):
     prog = facts.programs()['cproc-qbe']
     chk.guard('C08.t', lambda: rule_emittype(chk, prog, tier))
     chk.guard('C08.f', lambda: rule_type_before_use(chk, prog, tier))
     chk.guard('C08.c', lambda: rule_call_args(chk, prog, tier))
     chk.guard('C08.d', lambda: rule_adjust(chk, prog, tier))
+    chk.guard('C08.e', lambda: rule_valist(chk, prog, tier))
